@@ -210,9 +210,28 @@ def _(I, s, pat):
         if pat < 0x80:
             for x in s.items(): r = _or(r, x == pat)
             return r
+    if type(pat) is SliceRef or type(pat) is Ptr:
+        nd = as_str(I, pat).items(); h = s.items()
+        if not nd: return True
+        r = False
+        for i in range(0, len(h) - len(nd) + 1):
+            c = True
+            for k, b in enumerate(nd): c = _and(c, (h[i + k] == b) if (is_sym(h[i + k]) or is_sym(b)) else h[i + k] == b)
+            r = _or(r, c)
+        return r
     raise Unsupported("str::contains with this pattern")
-@sstr("trim", "trim_start", "trim_end", "parse", "find", "split", "lines", "replace", "repeat")
-def _(I, *a): raise Unsupported("str method not summarised")
+@sstr("find")
+def _(I, s, pat):
+    s = as_str(I, s)
+    if (isinstance(pat, int) and pat < 0x80):
+        for i, x in enumerate(s.items()):
+            if I.W.branch(x == pat if is_sym(x) else x == pat): return some(i)
+        return none()
+    raise Unsupported("str::find with this pattern")
+
+
+for _nm in ("trim", "trim_start", "trim_end", "parse", "split", "lines", "replace", "repeat"):
+    for _p in P: S[_p + _nm] = (lambda nm: (lambda I, *a: (_ for _ in ()).throw(Unsupported("str::" + nm + " not summarised"))))(_nm)
 
 
 def lower_eq(x, y):
@@ -484,3 +503,26 @@ def _(I, v):
     c = utf8_constraints(sym)
     if I.W.branch(c[0] if c else True): return ok(VecObj(bs, "String"))
     return err(Agg([v], "FromUtf8Error"))
+
+
+for _p in ("core::num::<impl u8>::", "<impl u8>::", "u8::"):
+    S[_p + "to_ascii_uppercase"] = lambda I, c: (lambda v: z3.If(z3.And(z3.UGE(v, 97), z3.ULE(v, 122)), v - 32, v) if is_sym(v) else (v - 32 if 97 <= v <= 122 else v))(I.deref(c))
+    S[_p + "to_ascii_lowercase"] = lambda I, c: (lambda v: z3.If(z3.And(z3.UGE(v, 65), z3.ULE(v, 90)), v + 32, v) if is_sym(v) else (v + 32 if 65 <= v <= 90 else v))(I.deref(c))
+    S[_p + "is_ascii_hexdigit"] = lambda I, c: (lambda v: z3.Or(z3.And(z3.UGE(v, 48), z3.ULE(v, 57)), z3.And(z3.UGE(v, 65), z3.ULE(v, 70)), z3.And(z3.UGE(v, 97), z3.ULE(v, 102))) if is_sym(v) else (48 <= v <= 57 or 65 <= v <= 70 or 97 <= v <= 102))(I.deref(c))
+    S[_p + "is_ascii_digit"] = lambda I, c: (lambda v: z3.And(z3.UGE(v, 48), z3.ULE(v, 57)) if is_sym(v) else 48 <= v <= 57)(I.deref(c))
+    S[_p + "is_ascii"] = lambda I, c: (lambda v: z3.ULT(v, 128) if is_sym(v) else v < 128)(I.deref(c))
+
+
+def _encode_utf8(I, c, dst):
+    d = unwrap_ptr(dst)
+    if type(d) is Ptr:
+        arr = I.read(d.cell, d.path); d = SliceRef(arr, 0, len(arr.f))
+    bs = encode_char(I, c)
+    if len(bs) > d.len: raise Panic("encode_utf8: buffer too small", "index")
+    if type(d.obj.f) is tuple: d.obj.f = list(d.obj.f)
+    for i, b in enumerate(bs): d.obj.f[d.start + i] = b
+    return SliceRef(d.obj, d.start, len(bs), True)
+
+
+for p in CH: S[p + "encode_utf8"] = _encode_utf8
+S["Vec::extend_from_slice"] = lambda I, p, s: (I.deref(p).f.extend(as_str(I, s).items() if getattr(s, "is_str", False) else (s.items() if type(s) is SliceRef else iter_to_list(I, s))), UNIT)[1]
